@@ -74,7 +74,18 @@ package cmd
 //@   ensures [prints_only_to_the_runners_writer] forall k int :: old(tlen()) < k && k < tlen()
 //@        && (evIs(k, "github.com/fatih/color.(*Color).Fprint") || evIs(k, "github.com/fatih/color.(*Color).Fprintln")) ==>
 //@        evArg(k, io.Writer) == evArg(old(tlen()), runnerPayload).writer
+//@   ensures [success_means_every_step_succeeded C10] forall k int :: result == nil && old(tlen()) < k && k < tlen() && evIs(k, "internal/cmd/runner:Step.Run") ==> evErr(k) == nil
+//@   ensures [the_failing_steps_error_is_returned_unchanged C10] result != nil ==> (exists k int :: old(tlen()) < k && k < tlen() && evIs(k, "internal/cmd/runner:Step.Run") && evErr(k) == result)
+//@   ensures [nothing_is_listed_on_success C10] result == nil ==> (forall k int :: old(tlen()) < k && k < tlen() ==>
+//@        !evIs(k, "github.com/fatih/color.(*Color).Fprint") && !evIs(k, "github.com/fatih/color.(*Color).Fprintln"))
+//@   ensures [one_numbered_line_per_collected_error C10 C07 C11] result != nil ==> (exists e int :: old(tlen()) < e && e < tlen() && evIs(e, "github.com/fatih/color.(*Color).Fprint")
+//@        && (forall k int :: old(tlen()) < k && k < e ==> !evIs(k, "github.com/fatih/color.(*Color).Fprint") && !evIs(k, "github.com/fatih/color.(*Color).Fprintln"))
+//@        && tlen() == e + 2 + 3 * len(grouperror.Collection(result)))
 //@   loop 1
+//@     invariant [lines] exists e int :: old(tlen()) < e && e < tlen() && evIs(e, "github.com/fatih/color.(*Color).Fprint")
+//@        && (forall k int :: old(tlen()) < k && k < e ==> !evIs(k, "github.com/fatih/color.(*Color).Fprint") && !evIs(k, "github.com/fatih/color.(*Color).Fprintln"))
+//@        && tlen() == e + 2 + 3 * $i
+//@     invariant [steps_before_the_list] forall k int :: entry(tlen()) <= k && k < tlen() ==> !evIs(k, "internal/cmd/runner:Step.Run")
 //@     invariant [built] old(tlen()) < tlen()
 //@     invariant [no_second_build] forall k int :: old(tlen()) < k && k < tlen() ==> !evIs(k, "internal/cmd:buildRunner")
 //@     invariant [writer] forall k int :: old(tlen()) < k && k < tlen()
